@@ -110,6 +110,13 @@ def drain_polls(port, out, limit=10000):
         keep(out, m)
 
 
+def take_one_pending(port, out):
+    """The consumer looks at the first pending message only (for m in port.iter_pending(): ...; break) - the rest stays."""
+    for m in port.iter_pending():
+        keep(out, m)
+        break
+
+
 def cut_case(ctx, msgs, cut, seg, seed):
     """Lock-step: send stream[:cut] in segments with polls in between, then
     the peer disconnects; then iterate to the end."""
@@ -146,8 +153,13 @@ def cut_case(ctx, msgs, cut, seg, seed):
                     clock.advance(rng.choice((1.5, 40.0, 3600.0)))
             prev = c
             if seg != 'whole' and rng.random() < 0.7:
-                drain_polls(port, got)
+                if rng.random() < 0.3:
+                    take_one_pending(port, got)
+                else:
+                    drain_polls(port, got)
         b.close()
+        if rng.random() < 0.3:
+            take_one_pending(port, got)
         try:
             if rng.random() < 0.4:
                 # the consumer leaves the loop after every second message and comes back (iterates again, polls)
